@@ -169,27 +169,55 @@ func SkipRows(fn *ssa.Function) []string {
 	// that has one). Swapping the branches of an if/else leaves these rows alone; moving a call before or
 	// behind another call, into or out of a loop or a branch, changes them.
 	{
+		type stp struct {
+			name string
+		}
 		lastStep := map[*ssa.BasicBlock]string{}
-		firstPass := map[*ssa.BasicBlock][]*ssa.Call{}
+		steps := map[*ssa.BasicBlock][]string{}
 		total := 0
 		for _, b := range fn.Blocks {
 			for _, in := range b.Instrs {
-				call, ok := in.(*ssa.Call)
-				if !ok || !isWork(in) {
+				if !isWork(in) {
 					continue
 				}
-				if _, isB := call.Call.Value.(*ssa.Builtin); isB {
+				name := ""
+				switch x := in.(type) {
+				case *ssa.Call:
+					if bi, isB := x.Call.Value.(*ssa.Builtin); isB {
+						name = "builtin " + bi.Name()
+					} else {
+						name = shortCallee(&x.Call)
+					}
+				case *ssa.Store:
+					_, f := core.FieldOf(x.Addr)
+					if f == "" {
+						f = "[]"
+					}
+					name = "store ." + f
+				case *ssa.MapUpdate:
+					name = "map update"
+				case *ssa.Defer:
+					name = "defer " + shortCallee(&x.Call)
+				case *ssa.Go:
+					name = "go " + shortCallee(&x.Call)
+				case *ssa.Send:
+					name = "send"
+				case *ssa.Panic:
+					name = "panic"
+				}
+				if name == "" {
 					continue
 				}
-				firstPass[b] = append(firstPass[b], call)
-				lastStep[b] = shortCallee(&call.Call)
+				steps[b] = append(steps[b], name)
+				lastStep[b] = name
 				total++
 			}
 		}
 		if total >= 2 {
 			for _, b := range fn.Blocks {
 				prev := ""
-				for k, call := range firstPass[b] {
+				for k, name := range steps[b] {
+					guard := ""
 					if k == 0 {
 						prev = "entry"
 						for x := b.Idom(); x != nil; x = x.Idom() {
@@ -198,9 +226,11 @@ func SkipRows(fn *ssa.Function) []string {
 								break
 							}
 						}
+						if gs := core.ControllingEdges(b); len(gs) > 0 {
+							guard = " if " + CondText(gs[0].If.Cond, gs[0].Branch)
+						}
 					}
-					name := shortCallee(&call.Call)
-					out = append(out, "step: "+name+" after "+prev)
+					out = append(out, "step: "+name+" after "+prev+guard)
 					prev = name
 				}
 			}
